@@ -364,7 +364,7 @@ class SSHChannel(Generic[AnyStr], SSHPacketHandler):
                 try:
                     assert self._decoder is not None
                     self._decoder.decode(b'', True)
-                except UnicodeDecodeError as unicode_exc:
+                except UnicodeError as unicode_exc:
                     raise ProtocolError(str(unicode_exc)) from None
 
             if self._recv_state == 'eof_pending':
@@ -406,7 +406,7 @@ class SSHChannel(Generic[AnyStr], SSHPacketHandler):
             try:
                 assert self._decoder is not None
                 decoded_data = cast(AnyStr, self._decoder.decode(data))
-            except UnicodeDecodeError as unicode_exc:
+            except UnicodeError as unicode_exc:
                 raise ProtocolError(str(unicode_exc)) from None
         else:
             decoded_data = cast(AnyStr, data)
